@@ -21,6 +21,15 @@ type RaceReport struct {
 
 var raceOffset int64
 
+// RepoPrefix is the source path prefix of the tree under test ("/repo/" unless
+// the driver was pointed at a scratch worktree through VERIF_REPO).
+func RepoPrefix() string {
+	if p := os.Getenv("VERIF_REPO"); p != "" {
+		return strings.TrimRight(p, "/") + "/"
+	}
+	return "/repo/"
+}
+
 func raceLogPath() string {
 	p := os.Getenv("VERIF_RACE_LOG")
 	if p == "" {
@@ -97,7 +106,7 @@ func ParseRaceReports(txt string) []RaceReport {
 			for _, acc := range accesses[:2] {
 				top := ""
 				for _, f := range acc {
-					if strings.HasPrefix(f.file, "/repo/") {
+					if strings.HasPrefix(f.file, RepoPrefix()) {
 						fn := f.fn
 						if k := strings.LastIndex(fn, "("); k > 0 {
 							fn = fn[:k]
@@ -106,7 +115,7 @@ func ParseRaceReports(txt string) []RaceReport {
 						if k := strings.LastIndex(file, ":"); k > 0 {
 							file = file[:k]
 						}
-						top = strings.TrimPrefix(file, "/repo/") + ":" + fn[strings.LastIndex(fn, "/")+1:]
+						top = strings.TrimPrefix(file, RepoPrefix()) + ":" + fn[strings.LastIndex(fn, "/")+1:]
 						break
 					}
 				}
